@@ -22,7 +22,7 @@ MIN_EVALS = {"quick": 800, "thorough": 15000}
 MIN_EVENTS = {"argument fingerprints compared (entry vs exit)": 3000,
               "twin states compared": 1200}
 TIMEOUT = {"quick": 900, "thorough": 3500}
-N_CASES = {"quick": 60, "thorough": 1200}     # per shard
+N_CASES = {"quick": 60, "thorough": 3500}     # per shard
 RULE = ("case = (scenario: which mutable argument [Parameters value/min/max/"
         "vary/expr, range_x list, method_kws dict, preprocessing list, "
         "options dict, returned Parameters, force array, training set "
